@@ -6,6 +6,8 @@
 package simsync
 
 import (
+	"runtime"
+	"strings"
 	"sync"
 
 	"storj.io/drpc/verifsim"
@@ -19,6 +21,19 @@ type (
 
 // Locker is sync.Locker.
 type Locker = sync.Locker
+
+// callerFunc returns the short name of the function skip frames up.
+func callerFunc(skip int) string {
+	pc, _, _, ok := runtime.Caller(skip)
+	if !ok {
+		return "?"
+	}
+	n := runtime.FuncForPC(pc).Name()
+	if i := strings.LastIndexByte(n, '.'); i >= 0 {
+		n = n[i+1:]
+	}
+	return n
+}
 
 type waitq struct {
 	waiters []*verifsim.Task
@@ -302,7 +317,7 @@ func (c *Cond) Wait() {
 		}
 	}
 	if still {
-		t.BlockOn("cond", c)
+		t.BlockOn("cond:"+callerFunc(2), c)
 	} else {
 		rt.Mu.Unlock()
 	}
